@@ -156,6 +156,34 @@ func checkC02(c C02Case, rec *obs.Recorder) *obs.Violation {
 	if oTB.Class == ref.Panic {
 		return obs.ViolK("panic", "%s + {%s}: Authorize panicked: %s", scenarioText(c.Token, c.Authz), c.B.Text(), oTB.Err)
 	}
+
+	// the same configuration handed over as a saved snapshot (taken from an authorizer of the parent
+	// token, loaded into authorizers of the parent and of the extended token)
+	if src, err := newAuthz(T, pub, c.Authz); err == nil {
+		if snap, err := src.SerializePolicies(); err == nil {
+			run := func(tok *biscuit.Biscuit) (bridge.Outcome, bool) {
+				a, err := newAuthz(tok, pub, m.Authz{})
+				if err != nil {
+					return bridge.Outcome{}, false
+				}
+				if lerr, pan := loadSafely(a, snap); lerr != nil || pan != nil {
+					return bridge.Outcome{}, false
+				}
+				return bridge.Authorize(a), true
+			}
+			lT, ok1 := run(T)
+			lTB, ok2 := run(TB)
+			if ok1 && inFragment && !want.Is(lT.Class) {
+				return obs.ViolK("via-snapshot", "%s: parent token, configuration loaded from a snapshot: expected %v, got %s", scenarioText(c.Token, c.Authz), want.Classes, lT)
+			}
+			if ok1 && ok2 {
+				rec.Label("via-snapshot:" + lT.Class + "->" + lTB.Class)
+				if lTB.Class == ref.Allow && lT.Class != ref.Allow {
+					return obs.ViolK("via-snapshot", "%s, configuration loaded from a snapshot saved on the parent: refused (%s), but after appending block {%s} (%s) it is allowed", scenarioText(c.Token, c.Authz), lT, c.B.Text(), mode)
+				}
+			}
+		}
+	}
 	return nil
 }
 
@@ -178,7 +206,7 @@ func drawC02(t *rapid.T) C02Case {
 func TestC02(t *testing.T) {
 	rec := obs.New("C02")
 	defer rec.Flush(true)
-	rec.SetExtra("rule", "rapid: goal-directed scenario (token with 0-2 later blocks, authorizer with checks and ordered policies, tuned so that most parents are refused) plus an adversarial appended block aimed at the refusal reason: ground facts instantiating the body of failing checks and of allow-policy queries, rules deriving them, copies of authority / authorizer facts, request-like facts over default symbols, ill-typed rules, rules with an unbound head variable, extra checks. A quarter of the cases append the block at wire level with the holder's next secret and this package's own writer, with symbol-table tricks (re-declared authority or default symbols, duplicated table, variables in facts, shifted indexes). Oracle: Authorize(T+B)==nil implies Authorize(T)==nil, and the parent verdict equals the reference. Non-trivial = the parent is refused and a (wrong) model in which the appended facts and rules were authority-level would allow; distinct by (token, authorizer, block, mode).")
+	rec.SetExtra("rule", "rapid: goal-directed scenario (token with 0-2 later blocks, authorizer with checks and ordered policies, tuned so that most parents are refused) plus an adversarial appended block aimed at the refusal reason: ground facts instantiating the body of failing checks and of allow-policy queries, rules deriving them, copies of authority / authorizer facts, request-like facts over default symbols, ill-typed rules, rules with an unbound head variable, extra checks. A quarter of the cases append the block at wire level with the holder's next secret and this package's own writer, with symbol-table tricks (re-declared authority or default symbols, duplicated table, variables in facts, shifted indexes). Oracle: Authorize(T+B)==nil implies Authorize(T)==nil, and the parent verdict equals the reference; the same two statements with the authorizer configuration delivered as a snapshot (SerializePolicies on an authorizer of T, LoadPolicies into authorizers of T and of T+B). Non-trivial = the parent is refused and a (wrong) model in which the appended facts and rules were authority-level would allow; distinct by (token, authorizer, block, mode).")
 	rec.SetExtra("assumptions", []string{"a block the builders or Unmarshal refuse counts as not widening"})
 	harness.RunWith(t, harness.Spec[C02Case]{ID: "C02", Draw: drawC02, Check: checkC02}, rec)
 }
